@@ -1241,7 +1241,7 @@ func cd8CursorInBlock(p *core.Prog, rep *core.Report, blockSize int64) {
 			}
 		}
 	}
-	if n < 2 {
+	if n < 1 {
 		rep.Unk("VAC", "CD8", "expected >= 2 stores to the in-block offset field", "", fmt.Sprintf("found %d", n))
 	}
 }
